@@ -3,6 +3,8 @@
 # pylint: disable=cyclic-import
 # pylint: disable=too-many-instance-attributes
 # pylint: disable=protected-access
+from copy import deepcopy
+
 import numpy as np
 from scipy.spatial.transform import Rotation as R
 
@@ -83,6 +85,9 @@ class BaseGeo(BaseTransform):
 
     @staticmethod
     def _process_style_kwargs(style=None, **kwargs):
+        if style is not None:
+            # the input is kept for lazy style creation: work on an independent copy
+            style = deepcopy(style)
         if kwargs:
             if style is None:
                 style = {}
